@@ -40,7 +40,7 @@ Cfgs == {
       values |-> << 1, 0, 0, 1, 0, 1 >> ] }
 CfgsNeg == { c \in Cfgs : c.widths = << 2 >> \/ Len(c.values) = 6 }
 ShapesQ == { << 3, 2, 1 >>, << 2, 2, 2 >>, << 1, 1, 3 >> }
-ShapesT == ShapesQ \cup { << 2, 1, 3 >>, << 3, 3, 1 >>, << 1, 4, 1 >>, << 3, 2, 2 >>, << 2, 3, 2 >>, << 1, 3, 3 >>, << 3, 1, 3 >>, << 4, 1, 1 >>, << 1, 1, 1 >>, << 2, 2, 3 >> }
+ShapesT == ShapesQ \cup { << 2, 1, 3 >>, << 3, 3, 1 >>, << 1, 4, 1 >>, << 1, 3, 3 >>, << 3, 1, 3 >>, << 4, 1, 1 >>, << 1, 1, 1 >> }
 ShapesNeg == { << 2, 2, 2 >> }
 KernelsQ == { << 3, 3, 1 >>, << 3, 3, 3 >>, << 1, 1, 3 >> }
 KernelsT == { << a, b, c >> : a \in {1, 3}, b \in {1, 3}, c \in {1, 3} } \cup { << 5, 1, 1 >>, << 1, 5, 3 >>, << 3, 1, 5 >> }
